@@ -26,7 +26,6 @@ from webob.descriptors import (
     environ_decoder,
     environ_getter,
     parse_auth,
-    parse_int,
     parse_int_safe,
     parse_range,
     serialize_auth,
@@ -272,7 +271,7 @@ class BaseRequest:
     query_string = environ_getter("QUERY_STRING", "")
     server_name = environ_getter("SERVER_NAME")
     server_port = converter(
-        environ_getter("SERVER_PORT"), parse_int, serialize_int, "int"
+        environ_getter("SERVER_PORT"), parse_int_safe, serialize_int, "int"
     )
 
     script_name = environ_decoder("SCRIPT_NAME", "", encattr="url_encoding")
@@ -1175,7 +1174,7 @@ class BaseRequest:
 
     max_forwards = converter(
         environ_getter("HTTP_MAX_FORWARDS", None, "14.31"),
-        parse_int,
+        parse_int_safe,
         serialize_int,
         "int",
     )
